@@ -496,6 +496,14 @@ def c08(ck):
     _sml_models(ck, ["layout"])
     ck.trace("layout", "layout", ["-n", q(ck, 1200, 10000)], "TraceSml", "TraceSml.cfg", ["InvC08"], agree=["InvAgreeC08"],
              nontrivial=lambda e: len(e.get("r1", {}).get("text", [])) > 12, key=SML_KEY)
+    if ck.violations:
+        return
+    # systematic: every single gap of fixed and seeded token lists x every separator, every single token's letter case
+    ck.rule.append("sweep: 6 fixed + 6 (quick) / 60 seeded token lists x every gap x 13 separators (blank, tab, LF, CRLF, CR, comments "
+                   "with hostile contents, and the non-separators nothing and VT), and each case-insensitive token in upper and lower case")
+    ck.trace("gaps", "layout-enum", ["-n", q(ck, 6, 60)], "TraceSml", "TraceSml.cfg", ["InvC08"], agree=["InvAgreeC08e"],
+             nontrivial=lambda e: len(e.get("r1", {}).get("text", [])) > 12,
+             key=lambda e: json.dumps([e.get("r1", {}).get("text"), e.get("r2", {}).get("text")]))
     ck.assumptions.append(SML_NOTE)
 
 
